@@ -381,8 +381,8 @@ def check_one(label, kind, arg, q, res):
         return
     if verdict is False:
         sig = "C05|" + classify("", log)
-        if kind == "c07" and arg.get("guard") == "with" and arg.get("N") == 0 \
-                and "outside of the packet" in log:
+        if kind == "c07" and arg.get("N") == 0 and \
+                "outside of the packet" in log:
             sig = "C05|packet guard of zero bytes"
         res["violations"].append(dict(
             signature=sig,
